@@ -73,7 +73,7 @@ def AtomParser(string=None):
     bases = [u for u in UNIT_STANDARD.keys() if string.endswith(u)]
     if bases:
         base = max(bases, key=len)
-        string = string[-len(base)-1]
+        string = string[1:-len(base)]
         unitid = f"{base:s}"
     else:
         raise Exception('Unknown unit', string, string_bak)
